@@ -102,6 +102,12 @@ pub fn feed_templates(o: &mut Outcome, v: &str, feats: &[String]) {
         format!("Format: 1.8\nSource: s\nVersion: {}\nBuild-Architecture: a\nArchitecture: a\nInstalled-Build-Depends: {}\nEnvironment: {}\nFiles: {}\n", one_line, one_line, one_line, one_line),
     ];
     for d in docs.iter() { feed_all(o, d, feats); }
+    // fields whose value is itself structured line by line (NAME="value" lines of a buildinfo Environment, checksum and
+    // file lists): the text as the name, as the value and as a whole line
+    if !v.contains('\n') {
+        let d = format!("Format: 1.8\nSource: s\nVersion: 1\nBuild-Architecture: a\nArchitecture: a\nEnvironment:\n {}=\"1\"\n LANG=\"{}\"\n {}\nChecksums-Sha256:\n {} 1 f\n abc {} f\n abc 1 {}\n", v, v, v, v, v, v);
+        feed_all(o, &d, feats);
+    }
 }
 
 fn classes(case: &Value) -> Vec<String> { case["i"].as_array().map(|a| a.iter().filter_map(|x| x.as_str().map(|s| s.to_string())).collect()).unwrap_or_default() }
@@ -223,6 +229,12 @@ pub fn run_codecs(case: &Value, _seed: u64) -> Outcome {
         // ... and with every digit run stretched to 25 times its length (numbers beyond u64 / u128: an error, never a panic)
         let stretched: String = t.chars().map(|c| if c.is_ascii_digit() { c.to_string().repeat(25) } else { c.to_string() }).collect();
         if stretched != t { texts.push(stretched); }
+        // ... and with a multi-byte character inserted at every character offset (a byte index taken for a character
+        // index, or the other way round, shows next to any delimiter)
+        if t.len() <= 40 && crate::conc::hash64(&t) % 3 == 0 {
+            let offs: Vec<usize> = t.char_indices().map(|(i, _)| i).chain(std::iter::once(t.len())).collect();
+            for (n, &i) in offs.iter().enumerate() { let mut m = t.clone(); m.insert_str(i, ["\u{e9}", "\u{65e5}", "\u{1f600}"][n % 3]); texts.push(m); }
+        }
         for x in texts { feed_all(&mut o, &x, &feats); feed_templates(&mut o, &x, &feats); }
         o.sample = json!({"value": t, "calls": o.evals});
         return o;
